@@ -20,6 +20,18 @@ CHECKS = {
         note="Trusted: ProgramFlag metadata (implies/exclusive_with/defaults) and _OPTIMIZE_LEVELS as the specification of the relations; command lines longer than 4 permuted flags and option *values* beyond the malformed menu are not explored."),
 }
 
+CHECKS["C06"] = dict(
+    category="model_checking",
+    technique="exhaustive one-step conformance: every (state index, symbol 0..255/end, data context) forced into the C struct and compared with an abstract machine over the compiler's DFA objects",
+    text="For every program x option set, every state index x every byte value (and end-of-input with EOF support) x a menu of data contexts "
+         "is forced into the generated C state struct, one symbol is fed (alone and as the head of a 2-byte chunk), and result code, bytes consumed, "
+         "hook calls with the outputs visible to them, next state and the output image are compared with the abstract machine's step on the "
+         "compiler's own DFState/DFTransition/Action objects; start() is compared too. Per program the (state, symbol) space is covered completely, "
+         "so any emitted transition that differs from the machine is found. This check is also what binds the AM (the model of the other checks) to the code.",
+    design_ref="DESIGN.md section 4, C06 and section 3.4",
+    note="Trusted: gcc 12 -O0 on x86-64 as the C semantics (plain char signed); the AM's step rules (DESIGN 3.4); data contexts are a finite menu of boundary values per variable, "
+         "not all values; valuations with C undefined behaviour are skipped; programs are corpus + feature programs + a slice of the bounded universe.")
+
 NOT_YET = {
 }
 
